@@ -22,7 +22,10 @@ def isLabel (s : String) : Bool := s.startsWith "//"
 def findDef (st : St) (l : String) : Option Attrs := st.defs.find? (·.label = l)
 
 /-- filegroups have no command, so they never show up in the action log -/
-def hasCmd (st : St) (l : String) : Bool := match findDef st l with | some a => a.cmd != .fg | none => true
+def hasCmd (st : St) (l : String) : Bool :=
+  match findDef st l with
+  | some a => match a.cmd with | .fg => false | .text _ => false | _ => true
+  | none => true
 
 def depsOf (a : Attrs) : List String := a.srcs.filter isLabel
 def fileSrcsOf (a : Attrs) : List String := (a.srcs.filter (fun s => !isLabel s)).map (fun f => pkgOf a.label ++ "/" ++ f)
@@ -86,6 +89,7 @@ def step (st : St) (line : String) : St × String :=
       | "fg", [] => some .fg
       | "opt", [] => some .opt
       | "const", [h] => (strOfHex h).map .const
+      | "text", [h] => (strOfHex h).map .text
       | _, _ => none
     match cmd? with
     | some cmd =>
